@@ -27,3 +27,5 @@ mod misc;
 mod blanket;
 #[cfg(kani)]
 mod fit;
+#[cfg(kani)]
+mod platt;
